@@ -199,8 +199,14 @@ import re as _re
 _SPACE = None
 
 
+_BLANK = {}
+
+
 def is_blank(c):
-    return _re.match(r"\s", c) is not None
+    r = _BLANK.get(c)
+    if r is None:
+        r = _BLANK[c] = _re.match(r"\s", c) is not None
+    return r
 
 
 def is_wordch(c):
@@ -244,6 +250,20 @@ def balanced(span, l, r):
             if depth < 0:
                 return False
     return depth == 0
+
+
+def greedy_occurrences(text, sub, ig):
+    """leftmost non-overlapping occurrences (the empty needle occurs at every offset)"""
+    f = fold if ig else (lambda x: x)
+    text, sub = f(text), f(sub)
+    out, pos = [], 0
+    while pos <= len(text):
+        k = text.find(sub, pos)
+        if k < 0:
+            break
+        out.append(k)
+        pos = k + max(1, len(sub))
+    return out
 
 
 def line_bounds(t, cur):
@@ -380,9 +400,19 @@ def _oracle_op(t, cur, op, res, d):
         return None if cur + v == n else ("get_end_of_document_position does not land on len(text)", "lands")
     if k == 14:
         r = unO(v)
+        sub, il, ic, ig = unS(op[1]), op[2], op[3], op[4]
+        if op[5] >= 1:
+            # the count-th element of the greedy list of occurrences in the scanned text (C02_find_exact)
+            scanned = t[cur:e] if il else t[cur:]
+            if not ic and scanned == "":
+                want = None
+            else:
+                occs = greedy_occurrences(scanned if ic else scanned[1:], sub, ig)
+                want = (occs[op[5] - 1] + (0 if ic else 1)) if len(occs) >= op[5] else None
+            if r != want:
+                return ("find(%r, count=%d): answer %r, but the count-th occurrence after the cursor is at offset %r" % (sub, op[5], r, want), "nth")
         if r is None:
             return None
-        sub, il, ic, ig = unS(op[1]), op[2], op[3], op[4]
         bad = bounds(r) or (same_line(r) if il else None)
         if bad:
             return bad
@@ -397,9 +427,15 @@ def _oracle_op(t, cur, op, res, d):
         return None
     if k == 15:
         r = unO(v)
+        sub, il, ig = unS(op[1]), op[2], op[3]
+        if op[4] >= 1:
+            before = (t[a:cur] if il else t[:cur])[::-1]
+            occs = greedy_occurrences(before, sub[::-1], ig)
+            want = (-occs[op[4] - 1] - len(sub)) if len(occs) >= op[4] else None
+            if r != want:
+                return ("find_backwards(%r, count=%d): answer %r, but the count-th occurrence before the cursor (from the right) is at offset %r" % (sub, op[4], r, want), "nth")
         if r is None:
             return None
-        sub, il, ig = unS(op[1]), op[2], op[3]
         bad = bounds(r) or (same_line(r) if il else None)
         if bad:
             return bad
@@ -412,6 +448,8 @@ def _oracle_op(t, cur, op, res, d):
         return None
     if k == 16:
         sub, ig = unS(op[1]), op[2]
+        if v != greedy_occurrences(t, sub, ig):
+            return ("find_all(%r): not the leftmost non-overlapping list of all occurrences" % sub, "nth")
         for p in v:
             occ = t[p:p + len(sub)]
             if not (0 <= p <= n) or ((fold(occ) != fold(sub)) if ig else (occ != sub)):
@@ -423,8 +461,6 @@ def _oracle_op(t, cur, op, res, d):
         return None
     if k in (18, 20, 21, 22, 23):
         r = unO(v)
-        if r is None:
-            return None
         cnt = op[2] if k == 21 else op[1]
         W = bool(op[3] if k == 21 else op[2])
         fam = "lands"
@@ -432,6 +468,23 @@ def _oracle_op(t, cur, op, res, d):
             fam = "cursor-at-end-of-text"
         if cnt < 1:
             return None        # the property quantifies over counts >= 1
+        # exactly the count-th word start / word end in the direction of the motion
+        # (theorems C02_*_exact); None iff there are fewer
+        if k == 20:
+            cands = [j for j in range(cur + 1, n) if is_word_start(t, j, W)]
+        elif k == 21:
+            cands = [j for j in range((cur if op[1] else cur + 1) + 1, n + 1) if is_word_end(t, j, W)]
+        elif k in (18, 22):
+            cands = [j for j in range(cur - 1, -1, -1) if is_word_start(t, j, W)]
+        else:
+            cands = [j for j in range(cur, 0, -1) if is_word_end(t, j, W)]
+        want = cands[cnt - 1] - cur if len(cands) >= cnt else None
+        if r != want and not (k == 23 and cur == n and r is not None):
+            return ("%s(count=%d): answer %r, but the count-th word %s %s the cursor is at offset %r" % (
+                name, cnt, r, "end" if k in (21, 23) else "start", "after" if k in (20, 21) else "before", want),
+                fam if k == 23 else "nth")
+        if r is None:
+            return None
         bad = bounds(r, fam if k == 23 else "bounds")
         if bad:
             return bad
@@ -457,6 +510,24 @@ def _oracle_op(t, cur, op, res, d):
         bad = bounds(s0) or bounds(e0) or same_line(s0) or same_line(e0)
         if bad:
             return bad
+        # exact: the maximal run of one class on each side of the cursor (joined only when both sides
+        # have the same class), extended over the blanks of the line when the flag is set
+        # (C02_word_boundaries_is_run / _trailing_ws / _leading_ws)
+        def side(seg, ws):
+            if not seg or is_blank(seg[0]):
+                return 0
+            kk, m = cls(seg[0], W), 0
+            while m < len(seg) and cls(seg[m], W) == kk:
+                m += 1
+            if ws:
+                while m < len(seg) and is_blank(seg[m]):
+                    m += 1
+            return m
+        we, ws_ = side(t[cur:e], trail), side(t[a:cur][::-1], lead)
+        if not W and we and ws_ and is_wordch(t[cur - 1]) != is_wordch(t[cur]):
+            ws_ = 0
+        if [s0, e0] != [-ws_, we]:
+            return ("find_boundaries_of_current_word: answer %r, the word around the cursor is %r" % ([s0, e0], [-ws_, we]), "exact")
         if not lead and not trail:
             span = t[cur + s0:cur + e0]
             if any(is_blank(c) for c in span) or len(set(cls(c, W) for c in span)) > 1:
@@ -708,13 +779,13 @@ def gen_groups(chk, dist):
             dist["exhaustive_cases"] += len(g)
             yield g
     # a stratum of the next sizes
-    for k, cnt in ((full_n + 1, 1500 if thorough else 250), (full_n + 2, 600 if thorough else 80)):
+    for k, cnt in ((full_n + 1, 900 if thorough else 250), (full_n + 2, 350 if thorough else 80)):
         for _ in range(cnt):
             t = "".join(rng.choice(ALPHA) for _ in range(k))
             curs = sorted(set([0, len(t)] + [rng.randint(0, len(t)) for _ in range(2)]))
             dist["stratum_texts"] += 1
             yield [[S(t), cur, ops_for(t, cur)] for cur in curs]
-    nrand = 6000 if thorough else 700
+    nrand = 4500 if thorough else 700
     for _ in range(nrand):
         t = rand_text(rng, 48)
         g = []
